@@ -21,7 +21,7 @@ TABLED = {
 }
 
 
-def err_arm_escapes(prog, fn, carriers_local_is_result, start_blocks, cancel_idx):
+def err_arm_escapes(prog, fn, carriers_local_is_result, start_blocks, cancel_idx, stop_blocks=()):
     """forward exploration from the Err-edge blocks: is there a path to a return whose value is not Err,
     following at switches on the *error payload's* discriminant only the edge the OperationCancelled variant takes?"""
     seen = set()
@@ -40,6 +40,8 @@ def err_arm_escapes(prog, fn, carriers_local_is_result, start_blocks, cancel_idx
         if (b, e) in seen:
             continue
         seen.add((b, e))
+        if b in stop_blocks:
+            continue    # the value is handed to a callee that returns the cancellation, and `?` propagates it here
         blk = fn.B[b]
         for dst, rv in blk['s']:
             if dst['l'] == 0 and not dst['p']:
@@ -65,6 +67,87 @@ def err_arm_escapes(prog, fn, carriers_local_is_result, start_blocks, cancel_idx
         for s in fn.succs(b):
             work.append((s, e))
     return None
+
+
+def deep_origins(fn, op, depth=0):
+    """origins of an operand, looking through tuple/variant aggregates"""
+    out = set()
+    if depth > 8:
+        return out
+    for o in fn.origins(op):
+        if o[0] == 'field' and o[1][0] == 'agg':
+            rv = fn.B[o[1][1]]['s'][o[1][2]][1]
+            fl = [p for p in o[2] if p.startswith('.')]
+            if fl and rv.get('ops') and int(fl[0][1:]) < len(rv['ops']):
+                out |= deep_origins(fn, rv['ops'][int(fl[0][1:])], depth + 1)
+                continue
+        if o[0] == 'agg':
+            rv = fn.B[o[1]]['s'][o[2]][1]
+            if rv.get('variant') in ('Err', 'Ok', 'Some') and rv.get('ops'):
+                out |= set(('wrap:' + rv['variant'], x) for x in deep_origins(fn, rv['ops'][0], depth + 1))
+                continue
+        out.add(o)
+    return out
+
+
+def derives_from_call(fn, b0, call_bi, depth=0):
+    """is the result of call b0 the (mapped / awaited) result of call_bi?"""
+    if b0 == call_bi:
+        return True
+    if depth > 5:
+        return False
+    t0 = fn.B[b0]['t']
+    if t0['fd'] not in discipline.FOLLOW and not t0['fd'].endswith('::poll'):
+        return False
+    for a in t0['args'][:1]:
+        if 'l' in a:
+            for o in fn.origins(a):
+                if o[0] == 'call' and derives_from_call(fn, o[1], call_bi, depth + 1):
+                    return True
+                if o[0] == 'field' and o[1][0] == 'call' and all(p.startswith('as Ready') or p == '.0' for p in o[2]) and derives_from_call(fn, o[1][1], call_bi, depth + 1):
+                    return True   # the awaited value of the future
+    return False
+
+
+def err_rewrapped_into(fn, call_bi, handler_blocks):
+    """handler call blocks whose Result argument is (a re-wrapped) Err payload of the call at call_bi"""
+    hit = set()
+    for cb in handler_blocks:
+        ct = fn.B[cb]['t']
+        for a in ct['args']:
+            if 'l' not in a or not is_result_ty(fn.local_ty(a['l'])):
+                continue
+            for o in deep_origins(fn, a):
+                if o[0] == 'wrap:Err' and o[1][0] == 'field' and o[1][1][0] == 'call' and any(p.startswith('as Err') for p in o[1][2]):
+                    if derives_from_call(fn, o[1][1][1], call_bi):
+                        hit.add(cb)
+    return hit
+
+
+def passed_ok(prog, f2, cb, cancel_idx):
+    """the Result is handed to a workspace function that returns the cancellation for this argument (its Err arm restricted to
+    OperationCancelled reaches only Err returns) and whose own result is propagated by the caller"""
+    ct = f2.B[cb]['t']
+    for g in prog.callee_targets(ct):
+        gf = prog.fn(g)
+        for ai, a in enumerate(ct['args']):
+            if 'l' in a and is_result_ty(f2.local_ty(a['l'])) and ai + 1 <= gf.argc:
+                pl = ai + 1
+                starts = []
+                for b3, blk in enumerate(gf.B):
+                    sw = blk['t']
+                    if sw['k'] == 'switch' and 'l' in sw['d']:
+                        for df in gf.defs.get(sw['d']['l'], ()):
+                            if df[0] == 'stmt' and df[3]['k'] == 'discr' and df[3]['pl']['l'] == pl and not [p for p in df[3]['pl']['p'] if p != '*']:
+                                okt = [tb for v, tb in sw['ts'] if v == 0]
+                                starts = [tb for v, tb in sw['ts'] if v != 0]
+                                if sw['o'] not in okt and len(sw['ts']) < 2:
+                                    starts.append(sw['o'])
+                if starts and err_arm_escapes(prog, gf, True, starts, cancel_idx) is None:
+                    own = sorted(set(c[0] for c in discipline.consumers(f2, cb)))
+                    if own == ['propagate']:
+                        return True
+    return False
 
 
 def run(ctx):
@@ -143,6 +226,16 @@ def run(ctx):
             ctx.analysed(name, 1)
             cons = discipline.consumers(f2, bi)
             callee = (t.get('r') or t['fd'])
+            accepted_pass = set()
+            for kind, detail, cb in cons:
+                if kind == 'passed' and passed_ok(prog, f2, cb, cancel_idx):
+                    accepted_pass.add(cb)
+            if any(k_ == 'inspect' for k_, _d, _c in cons):
+                # the Err payload may be re-wrapped (`Err(err) => (Err(err), None)`) and handed to a cancellation-propagating handler
+                handlers = set(b4 for b4, t4 in f2.calls() if b4 != bi and prog.callee_targets(t4) and any('l' in a and is_result_ty(f2.local_ty(a['l'])) for a in t4['args']))
+                for hb in err_rewrapped_into(f2, bi, handlers):
+                    if passed_ok(prog, f2, hb, cancel_idx):
+                        accepted_pass.add(hb)
             for kind, detail, cb in cons:
                 counts[kind] += 1
                 base = 'C23-D1|%s|%s|%s' % (name, callee, kind)
@@ -158,7 +251,7 @@ def run(ctx):
                         starts = [tb for v, tb in sw['ts'] if v != 0]
                         if sw['o'] not in okt and (len(sw['ts']) < 2):
                             starts.append(sw['o'])
-                    esc = err_arm_escapes(prog, f2, True, starts, cancel_idx) if starts else None
+                    esc = err_arm_escapes(prog, f2, True, starts, cancel_idx, stop_blocks=accepted_pass) if starts else None
                     ok = esc is None
                     if not ok and base in TABLED:
                         ctx.ob('C23-D1', name, callee, kind, True, detail='tabled: ' + TABLED[base], site=loc(t['span']))
@@ -170,6 +263,9 @@ def run(ctx):
                     continue
                 if base in TABLED:
                     ctx.ob('C23-D1', name, callee, kind, True, detail='tabled: ' + TABLED[base], site=loc(t['span']))
+                    continue
+                if kind == 'passed' and cb in accepted_pass:
+                    ctx.ob('C23-D1', name, callee, kind, True, detail='handed to %s, which returns OperationCancelled for this argument; its result is propagated' % detail.split('::')[-1], site=loc(t['span']))
                     continue
                 ctx.ob('C23-D1', name, callee, kind, False,
                        detail='the Result of %s (may return OperationCancelled) is consumed by %s at %s: cancellation is not propagated' % (callee.split('::')[-1], detail, loc(f2.B[cb]['t'].get('span') or t['span'])),
